@@ -278,6 +278,33 @@ def commitAll : Suite → Suite × Option Err
     | .error e => (t :: ts, some e)
     | .ok t' => let (ts', e) := commitAll ts; (t' :: ts', e)
 
+/-- one table's part of `TestSuite.commit` as repaired by b478bc1 (F61): `nl` = "the relation file is empty or its
+last byte is a newline" (`_ends_with_newline`); a plain file that does not end in a newline is REWRITTEN, not
+appended to (appending would glue the first new record to the unterminated last line).  `tsdb.write` terminates
+every record, so after any write the file ends in a newline.  On aligned tables the flag does not change the
+outcome (`commit_newline_irrelevant`): `commit` above is `commitNl · true`. -/
+def commitNl (t : T) (nl : Bool) : Except Err T :=
+  if inTransaction t then
+    if t.vol ≥ (t.pers : Int) ∧ t.gz = false ∧ nl = true then
+      match iterSlice t ⟨some (t.pers : Int), none, none⟩ with
+      | .error e => .error e
+      | .ok data => .ok (sync { t with file := t.file ++ data })
+    else
+      .ok (sync { t with file := abs t, gz := t.gz && !(abs t).isEmpty })
+  else .ok (sync t)
+
+/-- `TestSuite.commit` with the newline state of every relation file -/
+def commitAllNl : Suite → List Bool → Suite × Option Err
+  | [], _ => ([], none)
+  | t :: ts, nls =>
+    match commitNl t (nls.headD true) with
+    | .error e => (t :: ts, some e)
+    | .ok t' => let (ts', e) := commitAllNl ts nls.tail; (t' :: ts', e)
+
+/-- which files end in a newline after `commit`: the ones that did, and every one that was written -/
+def nlAfterCommit (s : Suite) (nls : List Bool) : List Bool :=
+  s.zipIdx.map (fun p => (nls.getD p.2 true) || inTransaction p.1)
+
 def reloadAll (s : Suite) : Suite := s.map sync
 
 def inTransactionS (s : Suite) : Bool := s.any inTransaction
